@@ -253,6 +253,38 @@ def register(reg):
                  requires=["0 <= n and n < npts(self)"],
                  ensures=[("the-observation", "result is obs(self, n)")]), variant="index")
 
+    # bracket assignment: track[name, i] = v, track[i, name] = v, track[name] = list / scalar / "#DELETE"
+    SETMOD = ["Obs.features", "Track." + DICO] + COORDS
+    CELL_REQ = ["twf(self)", "0 <= %(i)s and %(i)s < npts(self)", "not reserved(%(k)s) and hasname(self, %(k)s)"]
+    for variant, kind, k, i in (("name_index", "tuple[str,int]", "n[0]", "n[1]"), ("index_name", "tuple[int,str]", "n[1]", "n[0]")):
+        reg.add(Spec(T + "__setitem__", dict(self="Track", n=kind, obs="float"), "none", modifies=SETMOD,
+                     requires=[r % dict(i=i, k=k) for r in CELL_REQ],
+                     ensures=[("wf", "twf(self)"),
+                              ("cell-written", "same(col(self, %s, %s), obs)" % (k, i)),
+                              ("rest-of-the-row", "all(implies(c != colidx(self, %s), same(cell(self, %s, c), old(cell(self, %s, c)))) for c in range(0, nfeat(self)))" % (k, i, i)),
+                              ("nothing-else", "unchanged_except('Obs.features', obs(self, %s)) and unchanged('ENUCoords.E', 'ENUCoords.N', 'ENUCoords.U', 'Track.%s')" % (i, DICO))]),
+                variant=variant)
+    OTHER_OBS_ = ("all(implies(all(obs(self, q) != o for q in range(0, npts(self))), untouched(o, 'Obs.features')) for o in refs(Obs))")
+    OTHER_TRACKS_ = "all(implies(r != self, same(r.%s, old(r.%s))) for r in refs(Track))" % (DICO, DICO)
+    for variant, kind, val in (("name_list", "list[float]", "obs[i]"), ("name_scalar", "float", "obs")):
+        reg.add(Spec(T + "__setitem__", dict(self="Track", n="str", obs=kind), "none", modifies=SETMOD,
+                     requires=["twf(self)", "not reserved(n)", "npts(self) >= 1"] + (["len(obs) >= npts(self)"] if variant == "name_list" else []),
+                     ensures=[("wf", "twf(self)"),
+                              ("listed", "hasname(self, n)"),
+                              ("names", "all(implies(k != n, hasname(self, k) == old(hasname(self, k))) for k in strs)"),
+                              ("values-written", "all(same(col(self, n, i), %s) for i in range(0, npts(self)))" % val),
+                              ("other-columns", ALLCOLS_SAME % "n"),
+                              ("other-observations", OTHER_OBS_), ("other-tracks", OTHER_TRACKS_),
+                              ("coordinates", "unchanged('ENUCoords.E', 'ENUCoords.N', 'ENUCoords.U')")]), variant=variant)
+    reg.add(Spec(T + "__setitem__", dict(self="Track", n="str", obs="str"), "none", modifies=SETMOD,
+                 requires=["twf(self)", "not reserved(n)", "hasname(self, n)", "obs == '#DELETE'"],
+                 ensures=[("wf", "twf(self)"),
+                          ("unlisted", "not hasname(self, n)"),
+                          ("names", "all(implies(k != n, hasname(self, k) == old(hasname(self, k))) for k in strs)"),
+                          ("other-columns", ALLCOLS_SAME % "n"),
+                          ("other-observations", OTHER_OBS_), ("other-tracks", OTHER_TRACKS_),
+                          ("coordinates", "unchanged('ENUCoords.E', 'ENUCoords.N', 'ENUCoords.U')")]), variant="delete")
+
 
 def sf_first_is_hash(ex, st, name):
     strings.code("#")
@@ -398,4 +430,5 @@ def _more(reg):
 FUNCTIONS = [T + n for n in ("getObsAnalyticalFeature", "getListAnalyticalFeatures", "setObsAnalyticalFeature",
                              "createAnalyticalFeature", "createAnalyticalFeature@list",
                              "updateAnalyticalFeature", "updateAnalyticalFeature@list", "removeAnalyticalFeature",
-                             "getAnalyticalFeature", "__getitem__@name_index", "__getitem__@index", "operate@expression")] + ["tracklib.core.utils:addListToAF"]
+                             "getAnalyticalFeature", "__getitem__@name_index", "__getitem__@index", "operate@expression",
+                             "__setitem__@name_index", "__setitem__@index_name", "__setitem__@name_list", "__setitem__@name_scalar", "__setitem__@delete")] + ["tracklib.core.utils:addListToAF"]
